@@ -3,6 +3,7 @@ import Proofs.InterpSpec
 import Proofs.InterpVocab
 import Proofs.InterpBSE
 import Proofs.InterpStream
+import Proofs.InterpSorted
 /-!
 # C13 — Log-linear interpolation is the normalised weighted product of its inputs
 
@@ -283,6 +284,20 @@ theorem pass2_stream_refines {W : Type} [DecidableEq W] {F : Type} [Field F]
       (List.replicate (D + 1) [], (Y []).flatMap (fun y => specOut E cs V X Y D [y])) :=
   pass2_refines E cs V X Y hX D fuel hfuel hgood hnd
 
+/-- **Pass 2 on `ContextOrder`-sorted streams.**  For a union model closed under dropping the first
+word (lmplz models are; checked per case), the streams of orders `2 … D+2` sorted in `ContextOrder`
+*have* the grouped shape, so the stream recursion of `normalize.cc` run on them consumes every record
+and writes exactly `pOut` / `boSame`.  Remaining trust for pass 2: `util::stream::Sort` really sorts
+(C16), `RewindableStream`, float rounding. -/
+theorem pass2_on_sorted_streams {F : Type} [Field F] (E : ℚ → F) (cs : Comps Nat) (V : List Nat)
+    (h : UnionSuffixClosed cs) (D fuel : Nat)
+    (hfuel : needE (sortedY cs) D (sortedY cs []) [] ≤ fuel) :
+    extendCtx E cs fuel ((List.range (D + 1)).map (fun j => sortedStream cs (j + 2))) []
+        (Zinc E cs V []) =
+      (List.replicate (D + 1) [],
+        (sortedY cs []).flatMap (fun y => specOut E cs V (sortedX cs) (sortedY cs) D [y])) :=
+  pass2_sorted cs E V h D fuel hfuel
+
 /-- non-vacuity: a two-level tree (contexts `[1]`, `[3]`, `[1,3]`-style) satisfies `Good` -/
 example : Good (fun c => if c.length ≤ 2 then [7, 8] else []) (fun c => if c = [] then [1, 3] else if c = [3] then [1] else [])
     1 [3] := by
@@ -382,5 +397,8 @@ example : stuck exCs = [] := equal_orders_not_stuck exCs 2 (by decide)
 example : explicit exCs [1] = [3, 4] := by decide
 /-- the weighted sum is not trivial: `s(b | <s>) = ½·(b_A(<s>) + p_A(<unk>)) + ½·p_B(b|<s>)` -/
 example : usum exCs [1] 4 = 1/2 * (-1 + -1) + 1/2 * (-1/8) := by decide +kernel
+
+/-- non-vacuity: the union of the two example components is suffix closed -/
+example : UnionSuffixClosed exCs := by unfold UnionSuffixClosed; decide
 
 end KV.C13
